@@ -1,0 +1,27 @@
+//! Verification hooks (compiled only with `--cfg coap_lite_verif`).
+//!
+//! Read-only observation points used by an external conformance harness; with
+//! the cfg flag off this module does not exist.
+
+use core::sync::atomic::{AtomicUsize, Ordering};
+
+/// `(site, destination capacity, destination offset, byte count)` of a raw
+/// copy performed while serialising a packet.
+pub type CopySink = fn(u8, usize, usize, usize);
+
+static COPY_SINK: AtomicUsize = AtomicUsize::new(0);
+
+/// Installs the function that receives every raw copy event.
+pub fn set_copy_sink(sink: CopySink) {
+    COPY_SINK.store(sink as usize, Ordering::SeqCst);
+}
+
+#[inline]
+pub(crate) fn copy_event(site: u8, capacity: usize, offset: usize, n: usize) {
+    let raw = COPY_SINK.load(Ordering::SeqCst);
+    if raw != 0 {
+        // SAFETY: the only non-zero value ever stored is a valid `CopySink`.
+        let sink: CopySink = unsafe { core::mem::transmute(raw) };
+        sink(site, capacity, offset, n);
+    }
+}
